@@ -1,7 +1,8 @@
 CONSTANTS MaxFiles = 3
  Flaw_HttpClosesNormally = TRUE
  Flaw_MergesStaleDir = FALSE
+ Flaw_WritesThrough = FALSE
  Emit = FALSE
 SPECIFICATION Spec
-INVARIANTS HitIsComplete NoPartialCommit
+INVARIANTS HitIsComplete NoPartialCommit NoCollateral
 CHECK_DEADLOCK FALSE
